@@ -7,6 +7,7 @@ import IgrisModel.C20.Order
 import IgrisModel.C20.EventLemmas
 import IgrisModel.C20.SafeQLemmas
 import IgrisModel.C20.Round3
+import IgrisModel.C20.AnyOrder
 namespace Igris.C20
 
 /-! ### system lock -/
@@ -655,5 +656,120 @@ theorem safe_queue_post_before_operation_witness :
     (SQ.InCS (mid.pc 0) = true ∧ SQ.InCS (mid.pc 1) = true) ∧
     s.pushed = [(0, 1), (1, 2)] ∧ s.queue = [(1, 2)] ∧ s.pushed ≠ s.popped ++ s.queue := by
   decide
+
+/-! ### round 3b: `unwait_all` in ANY drain order; critical sections own the system lock
+
+`stepP pick` is `step false` except that the unlink step of `unwait_all` takes `pick waitq` (any queued waiter,
+`GoodPick pick : ∀ q ≠ [], pick q ∈ q`) instead of the head; `ReachP pick` = reachable under every schedule of
+runs and spurious returns with that drain order.  `pick = head` is the shipped code, `pick = last` the
+property-preserving change `benign/C20-b12-2`. -/
+
+/-- the shipped first-to-last order is the instance `pick = head`: every state reachable by the shipped code
+    (with spurious returns) is reachable in the generalised system -/
+theorem shipped_order_is_a_drain_order {prog q0 s} (h : ReachS prog q0 s) :
+    ReachP (fun q => q.headD 0) prog q0 s ∧ GoodPick (fun q => q.headD 0) ∧ GoodPick (fun q => q.getLast?.getD 0) :=
+  ⟨reachS_is_reachP h, goodPick_head, goodPick_last⟩
+
+/-- whatever order `unwait_all` drains the queue in: the counts mirror the mutex and two threads never hold the
+    system lock together; no event is touched after its waiter destroyed it; the wait queue has no duplicates and
+    everyone in it is parked, unflagged, not yet unlinked; a waiter that has seen its flag was unlinked by an
+    unwait (no spurious wake-up); an unlinked waiter has its flag set or its waker still before setting it (no
+    lost wake-up); a signal in progress has exactly one waker, its target alive and still waiting -/
+theorem any_drain_order_keeps_invariants {pick prog q0 s} (hp : GoodPick pick) (h : ReachP pick prog q0 s) :
+    (∀ t u, 0 < s.count t → 0 < s.count u → t = u) ∧
+    s.uaf = false ∧ s.waitq.Nodup ∧
+    (∀ w, w ∈ s.waitq → Waiting (s.pc w) = true ∧ (s.ev w).flag = false ∧ s.ulk w = false) ∧
+    (∀ w, Seen (s.pc w) = true → (s.ev w).flag = true ∧ s.ulk w = true) ∧
+    (∀ w, InWait (s.pc w) = true → s.ulk w = true → (s.ev w).flag = true ∨ ∃ k, IsSLock w (s.pc k) = true) ∧
+    (∀ k w, Sig w (s.pc k) = true → k ≠ w ∧ (s.ev w).alive = true ∧ Waiting (s.pc w) = true ∧
+        ∀ k', Sig w (s.pc k') = true → k' = k) := by
+  have hm := reachP_MI h
+  have hc := reachP_CI hp h
+  refine ⟨?_, hc.noUaf, hc.nodup, hc.inq, ?_, hc.lostwake, ?_⟩
+  · intro t u ht hu
+    have h1 : s.owner = some t := by
+      by_cases e : s.owner = some t
+      · exact e
+      · have := hm.other t e; omega
+    have h2 : s.owner = some u := by
+      by_cases e : s.owner = some u
+      · exact e
+      · have := hm.other u e; omega
+    rw [h1] at h2; exact Option.some.inj h2
+  · intro w hw
+    have hf := hc.seen w hw
+    exact ⟨hf, (hc.flagged w (seen_inwait _ hw) hf).1⟩
+  · intro k w hk
+    have a := hc.sig k w hk
+    exact ⟨a.1, hc.alive w (waiting_inwait _ a.2.1), a.2.1, fun k' hk' => hc.sigUniq k' k w hk' hk⟩
+
+/-- "critical sections own the system lock": a thread between the lock and the unlock of wait_current_schedee
+    (`wEnq`, `wUnlock`) or of unwait_one / unwait_all (`uUnlink`, the three signal steps, `uUnlock`) IS the owner of
+    the recursive mutex, its count is positive, and no other thread is inside such a section — every schedule,
+    spurious returns, any drain order -/
+theorem critical_section_owns_system_lock {pick prog q0 s} {t : Tid} (h : ReachP pick prog q0 s)
+    (ht : InCS (s.pc t) = true) :
+    s.owner = some t ∧ 0 < s.count t ∧ 0 < s.depth ∧ (∀ u, InCS (s.pc u) = true → u = t) ∧
+    (∀ u, u ≠ t → s.count u = 0) := by
+  have ho := reachP_OwnI h t ht
+  have hm := reachP_MI h
+  refine ⟨ho, cs_count_pos h ht, (hm.own t ho).2, fun u hu => cs_exclusive h hu ht, fun u hut => ?_⟩
+  apply hm.other u
+  rw [ho]; intro e; exact hut (Option.some.inj e).symm
+
+/-- the same for the shipped code (`ReachS`) -/
+theorem critical_section_owns_system_lock_shipped {prog q0 s} {t : Tid} (h : ReachS prog q0 s)
+    (ht : InCS (s.pc t) = true) :
+    s.owner = some t ∧ 0 < s.count t ∧ (∀ u, InCS (s.pc u) = true → u = t) := by
+  have a := critical_section_owns_system_lock (reachS_is_reachP h) ht
+  exact ⟨a.1, a.2.1, a.2.2.2.1⟩
+
+example : InCS (.uUnlink 7 true) = true ∧ InCS .wUnlock = true ∧ InCS .wSleep = false ∧ InCS .idle = false := by decide
+
+/-- while a thread is inside such a critical section, no step of another thread and no spurious return changes
+    the wait queue, the woken-marks or the futures (the enqueue and the unlink need the lock) -/
+theorem others_leave_wait_queue_alone {pick prog q0 s s'} {t : Tid} {a : Act} (h : ReachP pick prog q0 s)
+    (ht : InCS (s.pc t) = true) (ha : a ≠ .run t) (hs : actP pick s a = some s') :
+    s'.waitq = s.waitq ∧ s'.ulk = s.ulk ∧ s'.fut = s.fut ∧ s'.pc t = s.pc t := by
+  cases a with
+  | run u =>
+    have hut : u ≠ t := fun e => ha (by rw [e])
+    exact other_step_frame (reachP_OwnI h) ht hut hs
+  | spur u => exact spurious_frame ht hs
+
+/-- `unwait_all(f)` of thread `t` that found the queue `s1.waitq`, ANY drain order, every interleaving with the other
+    threads and spurious returns (`During`; `ws` = the waiters the call has unlinked so far, in its order): at every
+    moment of the call `ws ++ waitq` is a permutation of the queue found (nobody lost, nobody added, nobody twice),
+    exactly the members of `ws` are marked woken with future `f`, nobody else's mark or future changed (no spurious
+    wake), and at its system_unlock the queue is empty and `ws` is a permutation of the queue found -/
+theorem unwait_all_any_order {pick prog q0} {t : Tid} {f : Int} {s1 s : State} {ws : List Tid}
+    (hp : GoodPick pick)
+    (hr : ReachP pick prog q0 s1) (h1 : s1.pc t = .uUnlink f true) (hd : During pick t f s1 s ws)
+    (hin : InAll f (s.pc t) = true) :
+    (ws ++ s.waitq).Perm s1.waitq ∧ ws.Nodup ∧
+    (∀ w, w ∈ ws → s.ulk w = true ∧ s.fut w = f) ∧
+    (∀ w, w ∉ ws → s.ulk w = s1.ulk w ∧ s.fut w = s1.fut w) ∧
+    (s.pc t = .uUnlock → s.waitq = [] ∧ ws.Perm s1.waitq) :=
+  (unwait_all_during hp hr h1 hd).2 hin
+
+/-- the return of `unwait_all`, ANY drain order: after its system_unlock the wait queue is empty, the waiters it
+    unlinked (each exactly once) are a permutation of the queue it found, every one of them is marked woken with the
+    future of the call and nobody else was touched -/
+theorem unwait_all_any_order_return {pick prog q0} {t : Tid} {f : Int} {s1 s s' : State} {ws : List Tid}
+    (hp : GoodPick pick)
+    (hr : ReachP pick prog q0 s1) (h1 : s1.pc t = .uUnlink f true) (hd : During pick t f s1 s ws)
+    (hu : s.pc t = .uUnlock) (hs : stepP pick s t = some s') :
+    s'.waitq = [] ∧ ws.Perm s1.waitq ∧ s'.pc t = .idle ∧
+    (∀ w, w ∈ s1.waitq → s.ulk w = true ∧ s.fut w = f) ∧
+    (∀ w, w ∉ s1.waitq → s.ulk w = s1.ulk w ∧ s.fut w = s1.fut w) := by
+  have a := unwait_all_returns_any_order hp hr h1 hd hu hs
+  have b := unwait_all_marks_at_return hp hr h1 hd hu
+  exact ⟨a.1, a.2.1, a.2.2, b.1, b.2⟩
+
+/-- the hypotheses of the two theorems above are satisfiable for EVERY pick function -/
+theorem unwait_all_any_order_nonvacuous (pick : List Tid → Tid) :
+    ∃ s1, ReachP pick demoProg [] s1 ∧ s1.pc 1 = .uUnlink 7 true ∧ s1.waitq = [0] ∧ During pick 1 7 s1 s1 [] :=
+  hypotheses_non_vacuous pick
+
 
 end Igris.C20
